@@ -18,7 +18,8 @@ RULE = ('starting from valid strings (C04 grammar ASTs incl. multiplied nodes/br
         'existing ring bond); (c) a node with an edge of order >= 1 renamed to a name without fragment; (d) an annotation '
         'entry with two "="; (e) more positional values than the dialect has, written before, after or around a key=value entry; (f) a non-numeric value (positional or keyword) '
         'for a key that is reserved-numeric at that level - in base-graph nodes, coarse-fragment nodes and atomistic bracket '
-        'atoms. Expected: SyntaxError for a-e, TypeError for f, raised by read_cgsmiles / from_string / resolve; anything '
+        'atoms; (d-f) also inside a SECOND definition of an already defined name appended to its block, and (a) also on nodes of '
+        'coarse fragments. Expected: SyntaxError for a-e, TypeError for f, raised by read_cgsmiles / from_string / resolve; anything '
         'else (a returned graph, another exception type) is a violation. evaluations = faulted strings executed; distinct = '
         '(fault class, level, position class, feature set of the base string).')
 ASSUMPTIONS = ['ring faults inside ATOMISTIC fragment SMILES are parsed by pysmiles (non-strict), not by the anchored mechanisms: not generated',
@@ -174,6 +175,12 @@ def cases(seed, tier, shard, nshards):
                 late = '_late_fragment' if fi == len(items) - 1 and len(items) > 2 else ''
                 for f, p, s in atom_annotation_variants(rng, c['tokens'][name], g):
                     vs.append(dict(fault=f, pos=p + late, level='atom', api='resolve', string=base_s + '.' + frag({name: s})))
+            # the same atom-level faults inside a SECOND definition of a name that is already defined earlier in the block
+            # (the first definition is the one that counts, the faulty text still has to be rejected)
+            for fi, (name, text) in enumerate(items):
+                for f, p, s in atom_annotation_variants(rng, c['tokens'][name], g)[:3]:
+                    vs.append(dict(fault=f, pos='repeated_definition', level='atom', api='resolve',
+                                   string=base_s + '.' + frag()[:-1] + ',#%s=%s}' % (name, s)))
             made += 1
             yield dict(kind='complete', valid=base_s + '.' + frag(), variants=vs, features=sorted(MC.cut_features(g, part, c)))
         else:
@@ -191,6 +198,19 @@ def cases(seed, tier, shard, nshards):
                     faulty = head + '}.' + rest[:at] + ';' + text + rest[at:]
                     vs.append(dict(fault=fault, pos='first' if k == 0 else 'last' if k == len(spots) - 1 else 'middle',
                                    level='coarse_fragment', api='resolve_coarse', string=faulty))
+                    # ... and inside a second definition of the same name appended to its block
+                    lo = max(rest.rfind(',', 0, at), rest.rfind('{', 0, at)) + 1
+                    hi_c, hi_b = rest.find(',', at), rest.find('}', at)
+                    hi = min(x for x in (hi_c, hi_b) if x != -1)
+                    if rest[lo] == '#' and rng.random() < 0.3:
+                        bad_def = rest[lo:at] + ';' + text + rest[at:hi]
+                        vs.append(dict(fault=fault, pos='repeated_definition', level='coarse_fragment', api='resolve_coarse',
+                                       string=head + '}.' + rest[:hi_b] + ',' + bad_def + rest[hi_b:]))
+                # (a) a ring marker opened on this coarse-fragment node and never closed
+                after = rest[at + 1:at + 2]
+                if '%97' not in rest and not after.isdigit() and after != '|':
+                    vs.append(dict(fault='a', pos='coarse_fragment_node', level='coarse_fragment', api='resolve_coarse',
+                                   string=head + '}.' + rest[:at + 1] + '%97' + rest[at + 1:]))
             made += 1
             yield dict(kind='coarse', valid=s, variants=vs, features=sorted(c['features']))
 
